@@ -45,6 +45,7 @@ knowledge of the CeCILL-B license and that you accept its terms.
 
 #include <iostream> /* For streams */
 #include <iomanip> /* For setw and so on */
+#include <string>
 
 #include "ruruint.h"
 #include "ruconvert.h"
@@ -86,18 +87,17 @@ namespace RecInt
     template <size_t K>
     inline std::ostream& display_dec(std::ostream& out, const ruint<K>& a) {
         ruint<K> b(a);
-        char result[1024];
+        std::string result; // least significant digit first, as many digits as the value has
         limb m(0), ten(10);
-        int i;
 
         if (b == 0) out << '0';
 
-        for (i = 0; b != 0 && i < 1024; i++) {
+        while (b != 0) {
             div(b, m, b, ten);
-            result[i] = char('0' + m);
+            result.push_back(char('0' + m));
         }
 
-        for (i--; i >= 0; i--) out << result[i];
+        for (std::string::reverse_iterator it(result.rbegin()); it != result.rend(); ++it) out << *it;
         return out;
     }
 
